@@ -242,9 +242,21 @@ class Gen:
         ch = r.choice(["#s1", "#s2", "&s3"])
         k = r.choice(["invite_key", "invite_recreate", "invite_ban", "ranks_ladder", "halfop_mode", "quota_invisible",
                       "voice_rename", "wallops_rename", "flood_targets", "limit_invite", "case_twins", "kick_ranks",
-                      "secret_whois", "oper_cycle", "moderated_prefix", "ban_case", "rejoin_list", "topic_lock"])
+                      "secret_whois", "oper_cycle", "moderated_prefix", "ban_case", "rejoin_list", "topic_lock",
+                      "rename_masks"])
         L = self.line
-        if k == "invite_key":
+        if k == "rename_masks":
+            # masks are matched against the CURRENT nick!user@host of a renamed user
+            live = {x.get("nick") for x in self.conns.values() if x["live"]}
+            nn = r.choice([x for x in NICKS if x not in live] or ["zz9"])
+            L(a, "JOIN " + ch); L(b, "NICK " + nn)
+            if c3:
+                L(c3, "WHO %s!*@*" % nn); L(c3, "WHO %s!*@*" % nb); L(c3, "WHO *%s*" % nn[:2])
+            L(a, "WHO %s!*" % nn); L(a, "WHO %s!*" % nb)
+            L(a, "MODE %s +b %s!*@*" % (ch, r.choice([nn, nb]))); L(b, "JOIN " + ch)
+            L(a, "MODE %s +I %s!*@*" % (ch, nn)); L(a, "MODE %s +i" % ch); L(b, "JOIN " + ch)
+            self.conns[b]["nick"] = nn
+        elif k == "invite_key":
             L(a, "JOIN " + ch); L(a, "MODE %s +k sesame" % ch); L(a, "INVITE %s %s" % (nb, ch))
             L(b, "JOIN " + ch + r.choice(["", " wrong", " sesame"]))
             L(a, "MODE %s +I %s!*@*" % (ch, nb)); L(b, "JOIN " + ch + r.choice(["", " wrong"]))
